@@ -114,6 +114,9 @@ for _n in ["neo_hooke", "mooney_rivlin", "yeoh", "third_order_deformation", "ext
 reg("jax:morph", "jax", st.fixed_dictionaries({"scale": fl(0.8, 1.2)}), fun="morph", nstate=13, hyper=False, tol_fd=2e-5, reg=1e-4)
 reg("jax:morph_representative_directions", "jax", st.fixed_dictionaries({"scale": fl(0.8, 1.2)}), fun="morph_representative_directions",
     nstate=84, hyper=False, iso=False, micro=True, tol_fd=2e-5)
+# a user-defined energy with state variables handed to jax.Hyperelastic (documented nstatevars argument): the OLD state enters
+# the energy as a parameter, the new state is a function of C
+reg("jax:hyperelastic(user energy with state)", "jax", st.fixed_dictionaries({"mu": fl(0.2, 5)}), fun="user_state", nstate=2, energy=True, tol_fd=2e-6)
 reg("jax:total_lagrange(neo_hooke)", "jax", st.fixed_dictionaries({"mu": fl(0.2, 5)}), fun="total_lagrange")
 reg("jax:updated_lagrange(neo_hooke)", "jax", st.fixed_dictionaries({"mu": fl(0.2, 5)}), fun="updated_lagrange")
 
@@ -226,6 +229,15 @@ def _build(name, params):
             return jx.Material(L.morph, p=[v * p["scale"] if i in (0, 1, 2) else v for i, v in enumerate(MORPH_P)], nstatevars=13)
         if f == "morph_representative_directions":
             return jx.Material(L.morph_representative_directions, p=[v * p["scale"] if i in (0, 1, 2) else v for i, v in enumerate(MORPH_P)], nstatevars=84)
+        if f == "user_state":
+            def w_state(C, statevars, mu=1.0):
+                J = jnp.sqrt(jnp.linalg.det(C))
+                I1 = J ** (-2 / 3) * jnp.trace(C)
+                g = 1.0 + 0.3 * jnp.tanh(statevars[0]) + 0.1 * jnp.sin(statevars[1])
+                W = mu / 2 * g * (I1 - 3) + 2.0 * mu * (J - 1) ** 2
+                return W, jnp.array([I1 - 3, jnp.trace(C) - 3])
+
+            return jx.Hyperelastic(w_state, nstatevars=2, **p)
         if f == "total_lagrange":
             @jx.total_lagrange
             def nh_tl(F, mu=1):
@@ -277,7 +289,10 @@ def energy(name, params, F, sv=None):
     out = np.zeros(F.shape[2:])
     for idx in np.ndindex(*F.shape[2:]):
         Fi = F[(slice(None), slice(None)) + idx]
-        out[idx] = float(um.fun(jnp.asarray(Fi), **um.kwargs))
+        if e["nstate"]:
+            out[idx] = float(um.fun(jnp.asarray(Fi), jnp.asarray(sv[(slice(None),) + idx]), **um.kwargs)[0])
+        else:
+            out[idx] = float(um.fun(jnp.asarray(Fi), **um.kwargs))
     return out
 
 
